@@ -273,7 +273,13 @@ def check_d2_d3(chk, m):
         if rr[0] == "b" and rr[1] == "add" and rr[3] == ("arg", sz_arg) and rr[4][0] == "c" and 0 < rr[4][2] < (1 << 31):
             continue    # explicit "header incomplete" report (> sz): not a success path
         verdict = None
-        if rr[0] == "b" and rr[1] == "sub" and rr[3] == ("arg", sz_arg) and rr[4][0] == "call" and rr[4][1] == "rf_pack_remaining":
+        narrow = [x for x in paths.subexprs(p.ret) if x[0] == "cast" and x[1] == "trunc" and x[3] < 32 and
+                  paths.contains(x[4], lambda y: y[0] == "call" and y[1] in ("rf_pack_consumed", "rf_pack_remaining"))]
+        if narrow:
+            verdict = False
+            why = ("the byte count is narrowed to %d bits on its way to the result: the longest header the decoder accepts is 46 + 65535 "
+                   "bytes, so a length of 65536 + k is reported as k (a truncated input is then reported as a short success)" % narrow[0][3])
+        elif rr[0] == "b" and rr[1] == "sub" and rr[3] == ("arg", sz_arg) and rr[4][0] == "call" and rr[4][1] == "rf_pack_remaining":
             q = [k for k, e in enumerate(p.events) if e.kind == "call" and e.res == rr[4]]
             verdict = bool(q) and q[0] > last_item
             why = "sz - rf_pack_remaining()" + ("" if verdict else " queried BEFORE the last item is consumed (stale count)")
